@@ -268,16 +268,19 @@ class RecordLoop:
 
     def _check(self, it, k, entry, after):
         from pyvc.loops import SpecList
-        from pyvc.values import ABytes
+        from pyvc.values import ABytes, BytesVal
         h, tag = self.h, self.tag
         b0, nb, lst = entry[self.bufvar], after[self.bufvar], after[self.listvar]
-        ok_shape = isinstance(nb, ABytes) and nb.same_base(b0) and isinstance(lst, SpecList) and len(lst.appended) == 1
+        # the interpreter materialises a slice of known length 0 (stride beyond the end) as b""
+        empty = isinstance(nb, BytesVal) and len(nb.items) == 0
+        ok_shape = (empty or (isinstance(nb, ABytes) and nb.same_base(b0))) and isinstance(lst, SpecList) and len(lst.appended) == 1
         h.oblige(f"{tag}-loop/exactly one record appended and the cursor is a view of the same buffer", ok_shape, kind="loop-preserve")
         if not ok_shape:
             return
         want = self.cursor(b0, k + 1)
+        moved = S.eq(want.ln, 0) if empty else And(S.eq(nb.off, want.off), S.eq(nb.ln, want.ln))
         h.oblige(f"{tag}-loop/cursor advances by the announced stride (clamped to the end of the buffer)",
-                 And(S.eq(nb.off, want.off), S.eq(nb.ln, want.ln), S.eq(lst.n, k)), kind="loop-preserve")
+                 And(moved, S.eq(lst.n, k)), kind="loop-preserve")
         p = self.pos(k)
         h.oblige(f"{tag}-loop/the record is read from inside the buffer", And(p >= 0, p + self.rec_size <= b0.ln), kind="loop-preserve")
         rec_bytes = [S.SInt(z3.Select(b0.arr, S.int_t(b0.off + p + i))) for i in range(self.rec_size)]
@@ -428,3 +431,236 @@ def x22_decode(h):
     h.oblige("result is an AcControlMessage", h.isinstance(h.attr(r.value, "message"), X22 + ":AcControlMessage"))
     check_decoded_records(h, loop, r.value, buf, "ac_control", 4, 4, rc, chk, "x22: ")
     h.cover("x22 decode returns")
+
+
+# ================================ 0x21 zone status ==============================================
+
+def gen_zone_status_data(h, i, has_sensor, with_temperature, with_set_point, nonzero_temperature=False):
+    """A valid zone status record.  A temperature can only be reported by a zone with a sensor
+    (the decoder returns None without one; the document's no-sensor example carries the invalid value)."""
+    t = None
+    if with_temperature:
+        t = h.tenths(f"z{i}_temperature", T_LO_K, T_HI_K)
+        if nonzero_temperature:
+            h.assume(t != 0, "0.0 degC is covered by the one-record set")
+    return h.new(X21 + ":ZoneStatusData",
+                 zone_number=h.int(f"z{i}_number", 0, 15),
+                 power_state=h.enum(f"z{i}_power", X21 + ":ZonePowerState"),
+                 spill_active=h.bool(f"z{i}_spill"),
+                 control_method=h.enum(f"z{i}_method", X21 + ":ZoneControlMethod"),
+                 has_sensor=has_sensor,
+                 battery_status=h.enum(f"z{i}_battery", X21 + ":SensorBatteryStatus"),
+                 temperature=t,
+                 damper_percentage=h.int(f"z{i}_damper", 0, 100),
+                 set_point=set_point(h, f"z{i}_set_point") if with_set_point else None)
+
+
+_X21_FUNCS = [X21 + ":ZoneStatusEncoder.non_repeat_size", X21 + ":ZoneStatusEncoder.repeat_count",
+              X21 + ":ZoneStatusEncoder.repeat_size", X21 + ":ZoneStatusEncoder.encode",
+              X21 + ":ZoneStatusDecoder.decode", AT5 + "utils:encode_set_point", AT5 + "utils:decode_set_point",
+              AT5 + "utils:encode_temperature", AT5 + "utils:decode_temperature"]
+# (has_sensor, with_temperature, with_set_point)
+ZONE_STATUS_SHAPES = [(True, True, True), (True, False, True), (False, False, False), (True, True, False), (False, False, True)]
+
+
+@oset("at5.xC021.roundtrip.request", ["C03"], _X21_FUNCS)
+def x21_roundtrip_request(h):
+    roundtrip_c0(h, X21 + ":ZoneStatusEncoder", X21 + ":ZoneStatusDecoder", h.new(X21 + ":ZoneStatusRequest"), 0x21)
+
+
+@oset("at5.xC021.roundtrip.one-record", ["C03"], _X21_FUNCS)
+def x21_roundtrip_one(h):
+    """Every field value of one record, every optional-field shape.  0.0 degC is inside the domain."""
+    shape = h.choice("shape", ZONE_STATUS_SHAPES)
+    msg = h.new(X21 + ":ZoneStatusMessage", [gen_zone_status_data(h, 0, *shape)])
+    roundtrip_c0(h, X21 + ":ZoneStatusEncoder", X21 + ":ZoneStatusDecoder", msg, 0x21)
+
+
+@oset("at5.xC021.roundtrip.counts-0-16", ["C03"], _X21_FUNCS)
+def x21_roundtrip_counts(h):
+    """Repeat counts 0..16, all records fully symbolic, shapes cycle with the index.  The single
+    value 0.0 degC is left to the one-record set (it forks the encoder's `if temperature:` per record)."""
+    n = h.choice("count", list(range(17)))
+    recs = [gen_zone_status_data(h, i, *ZONE_STATUS_SHAPES[i % len(ZONE_STATUS_SHAPES)], nonzero_temperature=True) for i in range(n)]
+    roundtrip_c0(h, X21 + ":ZoneStatusEncoder", X21 + ":ZoneStatusDecoder", h.new(X21 + ":ZoneStatusMessage", recs), 0x21)
+
+
+def check_zone_status_record(h, rec, b, tag=""):
+    """Vendor reading (4.a.ii) of one zone status record: the first 8 bytes at the cursor."""
+    b1, b2, b3, b4, b5, b6, b7, b8 = b
+    T = X21
+    h.oblige(tag + "zone number = byte1 bit6-1", h.attr(rec, "zone_number") == b1 % 64)
+    h.oblige(tag + "power state = byte1 bit8-7 (00 off, 01 on, 11 turbo)",
+             h.enum_code(h.attr(rec, "power_state"), T + ":ZonePowerState", ZONE_STATE_CODE) == b1 // 64)
+    h.oblige(tag + "control method = byte2 bit8 (1 temperature, 0 percentage)",
+             h.enum_code(h.attr(rec, "control_method"), T + ":ZoneControlMethod", ZONE_METHOD_CODE) == b2 // 128)
+    h.oblige(tag + "open percentage = byte2 bit7-1", h.attr(rec, "damper_percentage") == b2 % 128)
+    sp = h.attr(rec, "set_point")
+    if h.is_none(sp):
+        h.oblige(tag + "set point absent only for byte3 = 0xFF invalid", b3 == 0xFF)
+    else:
+        h.oblige(tag + "set point = (byte3 + 100) / 10", sp == (b3 + 100) / 10)
+        h.oblige(tag + "byte3 = 0xFF (invalid) decodes to absent", b3 != 0xFF)
+    sensor = b4 // 128 == 1
+    h.oblige(tag + "has sensor = byte4 bit8", h.eq(h.attr(rec, "has_sensor"), sensor))
+    value = (b5 % 8) * 256 + b6
+    t = h.attr(rec, "temperature")
+    if h.is_none(t):
+        # the document is silent about the temperature field of a zone without sensor: absent is accepted there
+        h.oblige(tag + "temperature absent only if VALUE > 2000 (not available) or no sensor", Or(value > 2000, Not(sensor)))
+    else:
+        h.oblige(tag + "temperature = (VALUE - 500) / 10, VALUE = byte5 bit3-1, byte6", t == (value - 500) / 10)
+        h.oblige(tag + "VALUE > 2000 (not available) decodes to absent", value <= 2000)
+    h.oblige(tag + "spill = byte7 bit2", h.eq(h.attr(rec, "spill_active"), (b7 // 2) % 2 == 1))
+    h.oblige(tag + "low battery = byte7 bit1",
+             h.enum_code(h.attr(rec, "battery_status"), T + ":SensorBatteryStatus", BATTERY_CODE) == b7 % 2)
+
+
+def status_decode_contract(h, mod, dec_cls, msg_cls, req_cls, listvar, listattr, rec_size, min_stride, check, tag, sub_id,
+                           strides=None, mk_dec=None, loop_fn=None, request_rejected=False):
+    """C05 / C17 for a status decoder with announced stride: arbitrary payload, arbitrary repeat
+    count, arbitrary announced stride (symbolic unless `strides` lists the cases), arbitrary
+    decoder state.  `rec_size` = number of bytes the record is read from, `min_stride` = the
+    smallest stride the decoder must accept (the documented record size)."""
+    buf = h.abytes("payload")
+    rc = h.int("repeat_count", 0, 65535)
+    rs = h.int("repeat_length", 0, 65535) if strides is None else h.choice("repeat_length", strides)
+    dec = mk_dec(h) if mk_dec else h.raw(mod + ":" + dec_cls, _mismatch_logged=h.bool("mismatch_logged"))
+    chk = lambda rec, b, k: check(h, rec, b, "record k: ")
+    loop = RecordLoop(h, loop_fn or f"{mod}:{dec_cls}.decode", listvar, rec_size, rs, rc, chk, tag) if h.symbolic else None
+    r = h.method(dec, "decode", buf, at5_c0_subheader(h, sub_id, 0, rs, rc))
+    h.oblige("returns or rejects", only_rejects(h, r))
+    is_req = And(rc == 0, rs == 0)
+    if not r.ok:
+        if not request_rejected:
+            h.oblige("the request (repeat count 0, repeat length 0) is never rejected", Not(is_req))
+        h.oblige("a stride too short for one record is rejected with DecodeError", Implies(rs < min_stride, r.raised("DecodeError")))
+        return
+    m = h.attr(r.value, "message")
+    if req_cls and h.isinstance(m, req_cls):
+        h.oblige("a request is not a message of this kind", not request_rejected)
+        h.oblige("request <=> repeat count 0 and repeat length 0", is_req)
+        h.oblige("request: the whole payload remains", h.eq(h.attr(r.value, "remaining"), buf))
+        h.cover(tag + " decode returns a request")
+        return
+    h.oblige("result is the status message", h.isinstance(m, mod + ":" + msg_cls))
+    h.oblige("a status message is returned only for an announced stride >= the record size (and not for the request)",
+             And(Not(is_req), rs >= min_stride))
+    check_decoded_records(h, loop, r.value, buf, listattr, rec_size, rs, rc, chk, tag + ": ")
+    h.cover(tag + " decode returns a message")
+
+
+@oset("at5.xC021.decode-vendor-reading", ["C05", "C17"], [X21 + ":ZoneStatusDecoder.decode", AT5 + "utils:decode_set_point", AT5 + "utils:decode_temperature"],
+      assumptions=["normal data length 0 (as documented for protocol v1.2; see at5.xC021.decode-normal-data-length)"])
+def x21_decode(h):
+    """Unbounded in the record count and for every announced stride 0..65535 (symbolic stride loop contract)."""
+    status_decode_contract(h, X21, "ZoneStatusDecoder", "ZoneStatusMessage", X21 + ":ZoneStatusRequest", "zones", "zones", 8, 8,
+                           check_zone_status_record, "x21", 0x21)
+
+
+def normal_data_length_contract(h, mod, dec_cls, msg_cls, listattr, stride, check, sub_id):
+    """4.a.ii / 4.a.iv: "No normal data (byte3 byte4: 0). If the protocol is upgraded, this value may
+    change. Use this specific value for data parsing."  One record behind `nr` bytes of normal data:
+    the decoder must read the record after the normal data, or reject - not read the normal data
+    as a record."""
+    nr = h.int("non_repeat_length", 1, 16)
+    buf = h.abytes("payload")
+    dec = h.new(mod + ":" + dec_cls)
+    r = h.method(dec, "decode", buf, at5_c0_subheader(h, sub_id, nr, stride, 1))
+    h.oblige("returns or rejects", only_rejects(h, r))
+    if not r.ok:
+        return
+    recs = h.elems(h.attr(h.attr(r.value, "message"), listattr))
+    h.oblige("one record", len(recs) == 1)
+    if len(recs) != 1:
+        return
+    if h.symbolic:
+        b = [S.SInt(z3.Select(buf.arr, S.int_t(buf.off + nr + i))) for i in range(stride)]
+        h.assume(And(*[And(x >= 0, x <= 255) for x in b]), "bytes are 0..255")
+    else:
+        b = list(buf[nr:nr + stride]) + [0] * stride
+    check(h, recs[0], b[:8], "record after the normal data: ")
+
+
+@oset("at5.xC021.decode-normal-data-length", ["C05", "C17"], [X21 + ":ZoneStatusDecoder.decode"], bounded="one record, normal data length 1..16")
+def x21_normal_data(h):
+    normal_data_length_contract(h, X21, "ZoneStatusDecoder", "ZoneStatusMessage", "zones", 8, check_zone_status_record, 0x21)
+
+
+# ================================ 0x23 AC status =================================================
+
+def gen_ac_status_data(h, i):
+    return h.new(X23 + ":AcStatusData",
+                 ac_number=h.int(f"a{i}_number", 0, 15),
+                 power_state=h.enum(f"a{i}_power", X23 + ":AcPowerState"),
+                 mode=h.enum(f"a{i}_mode", X23 + ":AcMode"),
+                 fan_speed=h.enum(f"a{i}_fan", X23 + ":AcFanSpeed"),
+                 turbo_active=h.bool(f"a{i}_turbo"), bypass_active=h.bool(f"a{i}_bypass"),
+                 spill_active=h.bool(f"a{i}_spill"), timer_set=h.bool(f"a{i}_timer"),
+                 set_point=set_point(h, f"a{i}_set_point"),
+                 temperature=h.tenths(f"a{i}_temperature", T_LO_K, T_HI_K),
+                 error_code=h.int(f"a{i}_error", 0, 65535))
+
+
+_X23_FUNCS = [X23 + ":AcStatusEncoder.non_repeat_size", X23 + ":AcStatusEncoder.repeat_count",
+              X23 + ":AcStatusEncoder.repeat_size", X23 + ":AcStatusEncoder.encode",
+              X23 + ":AcStatusDecoder.decode", AT5 + "utils:encode_set_point", AT5 + "utils:decode_set_point",
+              AT5 + "utils:encode_temperature", AT5 + "utils:decode_temperature"]
+
+
+@oset("at5.xC023.roundtrip.request", ["C03"], _X23_FUNCS)
+def x23_roundtrip_request(h):
+    roundtrip_c0(h, X23 + ":AcStatusEncoder", X23 + ":AcStatusDecoder", h.new(X23 + ":AcStatusRequest"), 0x23)
+
+
+@oset("at5.xC023.roundtrip.counts-0-16", ["C03"], _X23_FUNCS)
+def x23_roundtrip_counts(h):
+    """Repeat counts 0..16, every record fully symbolic (the record has no optional field: one shape)."""
+    n = h.choice("count", list(range(17)))
+    msg = h.new(X23 + ":AcStatusMessage", [gen_ac_status_data(h, i) for i in range(n)])
+    out = roundtrip_c0(h, X23 + ":AcStatusEncoder", X23 + ":AcStatusDecoder", msg, 0x23)
+    if out is not None:
+        h.oblige("10 bytes per AC (the documented layout with the two unused bytes)", h.eq(h.length(out), 10 * n))
+
+
+def check_ac_status_record(h, rec, b, tag=""):
+    """Vendor reading (4.a.iv) of one AC status record: the first 8 bytes at the cursor."""
+    b1, b2, b3, b4, b5, b6, b7, b8 = b
+    T = X23
+    h.oblige(tag + "AC number = byte1 bit4-1", h.attr(rec, "ac_number") == b1 % 16)
+    h.oblige(tag + "power state = byte1 bit8-5 (0 off, 1 on, 2 away off, 3 away on, 5 sleep)",
+             h.enum_code(h.attr(rec, "power_state"), T + ":AcPowerState", AC_STATE_CODE) == b1 // 16)
+    h.oblige(tag + "mode = byte2 bit8-5", h.enum_code(h.attr(rec, "mode"), T + ":AcMode", AC_STATUS_MODE_CODE) == b2 // 16)
+    h.oblige(tag + "fan speed = byte2 bit4-1", h.enum_code(h.attr(rec, "fan_speed"), T + ":AcFanSpeed", AC_STATUS_FAN_CODE) == b2 % 16)
+    sp = h.attr(rec, "set_point")
+    if h.is_none(sp):
+        h.oblige(tag + "setpoint absent only for VALUE > 250 (not available)", b3 > 250)
+    else:
+        h.oblige(tag + "setpoint = (byte3 + 100) / 10", sp == (b3 + 100) / 10)
+        h.oblige(tag + "setpoint VALUE > 250 (not available) decodes to absent", b3 <= 250)
+    h.oblige(tag + "turbo = byte4 bit4", h.eq(h.attr(rec, "turbo_active"), (b4 // 8) % 2 == 1))
+    h.oblige(tag + "bypass = byte4 bit3", h.eq(h.attr(rec, "bypass_active"), (b4 // 4) % 2 == 1))
+    h.oblige(tag + "spill = byte4 bit2", h.eq(h.attr(rec, "spill_active"), (b4 // 2) % 2 == 1))
+    h.oblige(tag + "timer = byte4 bit1", h.eq(h.attr(rec, "timer_set"), b4 % 2 == 1))
+    value = (b5 % 8) * 256 + b6
+    t = h.attr(rec, "temperature")
+    if h.is_none(t):
+        h.oblige(tag + "temperature absent only for VALUE > 2000 (not available)", value > 2000)
+    else:
+        h.oblige(tag + "temperature = (VALUE - 500) / 10, VALUE = byte5 bit3-1, byte6", t == (value - 500) / 10)
+        h.oblige(tag + "temperature VALUE > 2000 (not available) decodes to absent", value <= 2000)
+    h.oblige(tag + "error code = byte7-8", h.attr(rec, "error_code") == b7 * 256 + b8)
+
+
+@oset("at5.xC023.decode-vendor-reading", ["C05", "C17"], [X23 + ":AcStatusDecoder.decode", AT5 + "utils:decode_set_point", AT5 + "utils:decode_temperature"],
+      assumptions=["normal data length 0 (as documented for protocol v1.2; see at5.xC023.decode-normal-data-length)"])
+def x23_decode(h):
+    """Unbounded in the record count and for every announced stride 0..65535 (symbolic stride loop
+    contract).  The document allows 8 and 10 byte records; the reading uses the first 8 bytes."""
+    status_decode_contract(h, X23, "AcStatusDecoder", "AcStatusMessage", X23 + ":AcStatusRequest", "acs", "ac_status", 8, 8,
+                           check_ac_status_record, "x23", 0x23)
+
+
+@oset("at5.xC023.decode-normal-data-length", ["C05", "C17"], [X23 + ":AcStatusDecoder.decode"], bounded="one record, normal data length 1..16")
+def x23_normal_data(h):
+    normal_data_length_contract(h, X23, "AcStatusDecoder", "AcStatusMessage", "ac_status", 10, check_ac_status_record, 0x23)
